@@ -58,6 +58,9 @@ func nameOf(a []byte) string {
 			return n
 		}
 	}
+	if hexs(a) == unknownAcc {
+		return "unknown-address"
+	}
 	return "0x" + hexs(a)
 }
 
